@@ -7,11 +7,22 @@ def _sig(ops, io, mo, k):
             "model": mo[k] if k < len(mo) else "<missing>"}
 
 
+def _sig_lin(ops, io, mo, k):
+    line = ops[k] if k < len(ops) else ""
+    head = ops[0].split(" ") if ops else []
+    obj = next((w for w in head if w.startswith("obj=")), "obj=?")
+    verdict = mo[k] if k < len(mo) else "<missing>"
+    f = line.split(" ")
+    return {"obj": obj, "line": f[0], "op": f[2] if f[0] == "hang" and len(f) > 2 else "", "verdict": verdict}
+
+
 CFG = PropCfg(
     "C17", "HopModel.Props.C17",
     [SuiteCfg("C17q", signature=_sig,
               nontrivial=lambda ops, outs: any(o.startswith("val") for o in outs) and "eof" in outs,
-              classify=lambda op, out: op.split(" ", 1)[0] + "->" + out.split(" ", 1)[0])],
+              classify=lambda op, out: op.split(" ", 1)[0] + "->" + out.split(" ", 1)[0]),
+     SuiteCfg("C17lin", kind="monitor", signature=_sig_lin, timeout=3000,
+              nontrivial=lambda seg, ver: sum(1 for l in seg if l.startswith("ret ")) >= 3)],
     rule="C17q: a case is one single-goroutine operation sequence (new cap; send/recv/close/set/cancel/fire ...) "
          "run on a real common.DeadlineChan[int] and on QSpec; every answer is compared exactly; calls that "
          "block are observed as `block` and released by Cancel. distinct_nontrivial counts distinct sequences in "
